@@ -544,7 +544,7 @@ func runModel(x *core.Ctx, r *core.Rng) {
 	logf := func(format string, a ...interface{}) { m.hist = append(m.hist, fmt.Sprintf(format, a...)) }
 
 	quiesce := func() bool {
-		deadline := time.Now().Add(5 * time.Second)
+		deadline := time.Now().Add(20 * time.Second)
 		for {
 			pending := ""
 			for k, h := range m.hs {
@@ -593,7 +593,7 @@ func runModel(x *core.Ctx, r *core.Rng) {
 				return true
 			}
 			if time.Now().After(deadline) {
-				m.fail("handler-delivery", "expected deliveries / republished state did not arrive", "after 5 s still pending: %s", pending)
+				m.fail("handler-delivery", "expected deliveries / republished state did not arrive", "after 20 s still pending: %s", pending)
 				return false
 			}
 			time.Sleep(300 * time.Microsecond)
@@ -645,6 +645,13 @@ func runModel(x *core.Ctx, r *core.Rng) {
 			nh++
 			t := topics[r.Intn(3)]
 			h := &refHandler{id: fmt.Sprintf("h%d", nh), topic: t}
+			if r.Chance(0.06) {
+				// ids made of allowed characters that are also path elements
+				h.id = r.Pick([]string{"..", ".", "h.x"})
+				if _, dup := m.hs[t+"/"+h.id]; dup {
+					h.id = fmt.Sprintf("h%d", nh)
+				}
+			}
 			if r.Chance(0.6) {
 				ms := genMatch(r, 2)
 				h.match = &ms
@@ -699,6 +706,23 @@ func runModel(x *core.Ctx, r *core.Rng) {
 				return
 			}
 			m.hs[t+"/"+h.id] = h
+			// the service lists exactly the defined handlers of the topic
+			specs, _ := svc.HandlerSpecs(t, "")
+			var ids, want []string
+			for _, sp := range specs {
+				ids = append(ids, sp.ID)
+			}
+			for _, hh := range m.hs {
+				if hh.topic == t && hh.kind != "anon" {
+					want = append(want, hh.id)
+				}
+			}
+			sort.Strings(ids)
+			sort.Strings(want)
+			if fmt.Sprint(ids) != fmt.Sprint(want) {
+				m.fail("handler-specs", "the handlers listed for a topic are not the defined ones", "topic %s lists %v, defined are %v", t, ids, want)
+				return
+			}
 		case k < 16: // deregister / update a spec handler
 			var keys []string
 			for kx, h := range m.hs {
